@@ -1,2 +1,128 @@
-/- placeholder: the C09 driver is not built yet -/
-def main : IO Unit := IO.println "C09: driver not built yet"
+/- C09 line-protocol driver: prints `model <TAB> spec` for each case line.
+
+   new kind=ss|fs|fi cap=N cmp=less|greater|tless|tgreater ctor=range|su init=[..] other=[..]
+   insert k=K [via=insert|emplace|hint]      insert_range ks=[..]
+   erase_key k=K   erase_at pos=P   erase_range first=F last=L   clear   swap   extract   replace c=[..]
+   find|contains|count k=K [het=1]   lower_bound|upper_bound|equal_range k=K [het=1]   riter
+   mset cmp=.. c=[..]                          (flat_multiset construction, stateless)
+   every answer is followed by the state of the current set: ` n=<size> d=[..]`                     -/
+import Tetl.Proto
+import Tetl.C09.Model
+import Tetl.C09.Spec
+namespace Tetl.C09.Driver
+open Tetl Tetl.Proto Tetl.C09
+
+structure Live where
+  kind : Kind
+  lt : Nat → Nat → Bool
+  cap : Nat
+  model : Except Err (St Nat)
+  spec : St Nat
+
+abbrev DState := Option Live
+
+def cmpOf : String → Option (Nat → Nat → Bool)
+  | "less" | "tless" => some (fun a b => decide (a < b))
+  | "greater" | "tgreater" => some (fun a b => decide (a > b))
+  | _ => none
+
+def kindOf : String → Option Kind
+  | "ss" => some .ss | "fs" => some .fs | "fi" => some .fi | _ => none
+
+def fmtIns (hint : Bool) : InsRes → String
+  | .inserted p => if hint then s!"it({p})" else s!"ins({p},1)"
+  | .exists_ p => if hint then s!"it({p})" else s!"ins({p},0)"
+  | .full => "full"
+
+def fmtOut (hint : Bool) : Out Nat → String
+  | .ins r => fmtIns hint r
+  | .unit => "ok"
+  | .num n => toString n
+  | .flag b => fmtBool b
+  | .pair a b => s!"{a}:{b}"
+  | .elems l => fmtNatList l
+
+def fmtSt (l : List Nat) : String := s!" n={l.length} d={fmtNatList l}"
+
+def build (kind : Kind) (lt : Nat → Nat → Bool) (cap : Nat) (ctor : String) (init : List Nat) :
+    Except Err (List Nat) :=
+  if ctor == "su" then
+    (if init.length > cap then .error (.pre "container fits") else .ok init)
+  else match kind with
+    | .ss => ssInsertRange lt cap [] init
+    | .fs => fsInsertRange lt cap [] init
+    | .fi => fiInsertRange lt cap [] init
+
+def specBuild (lt : Nat → Nat → Bool) (cap : Nat) (ctor : String) (init : List Nat) : List Nat :=
+  if ctor == "su" then init else Spec.insertRange lt cap [] init
+
+def parseOp (l : Line) : Option (Op Nat × Bool) :=
+  let het := (l.nat? "het").getD 0 == 1
+  match l.op with
+  | "insert" => (l.nat? "k").map fun k => (.insert k, (l.str? "via").getD "insert" == "hint")
+  | "insert_range" => (l.natList? "ks").map fun ks => (.insertRange ks, false)
+  | "erase_key" => (l.nat? "k").map fun k => (.eraseKey k, false)
+  | "erase_at" => (l.nat? "pos").map fun p => (.eraseAt p, false)
+  | "erase_range" =>
+    match l.nat? "first", l.nat? "last" with
+    | some f, some la => some (.eraseRange f la, false)
+    | _, _ => none
+  | "clear" => some (.clear, false)
+  | "swap" => some (.swap, false)
+  | "extract" => some (.extract, false)
+  | "replace" => (l.natList? "c").map fun c => (.replace c, false)
+  | "find" => (l.nat? "k").map fun k => (.find k het, false)
+  | "contains" => (l.nat? "k").map fun k => (.contains k het, false)
+  | "count" => (l.nat? "k").map fun k => (.count k het, false)
+  | "lower_bound" => (l.nat? "k").map fun k => (.lowerBound k, false)
+  | "upper_bound" => (l.nat? "k").map fun k => (.upperBound k, false)
+  | "equal_range" => (l.nat? "k").map fun k => (.equalRange k, false)
+  | _ => none
+
+def step (st : DState) (l : Line) : DState × String :=
+  let bad := (st, "bad-op\tbad-op")
+  match l.op with
+  | "new" =>
+    match (l.str? "kind").bind kindOf, (l.str? "cmp").bind cmpOf, l.nat? "cap" with
+    | some kind, some lt, some cap =>
+      let ctor := (l.str? "ctor").getD "range"
+      let init := (l.natList? "init").getD []
+      let other := (l.natList? "other").getD []
+      let m : Except Err (St Nat) := do
+        let c ← build kind lt cap ctor init
+        let o ← build kind lt cap "range" other
+        pure { cur := c, other := o }
+      let s : St Nat := { cur := specBuild lt cap ctor init, other := specBuild lt cap "range" other }
+      let ms := match m with | .ok x => "ok" ++ fmtSt x.cur | .error e => e.fmt
+      (some { kind := kind, lt := lt, cap := cap, model := m, spec := s }, ms ++ "\t" ++ "ok" ++ fmtSt s.cur)
+    | _, _, _ => bad
+  | "mset" =>
+    match (l.str? "cmp").bind cmpOf, l.natList? "c" with
+    | some lt, some c =>
+      let m := match gnomeSort lt c with | .ok x => fmtNatList x | .error e => e.fmt
+      (st, m ++ "\t" ++ fmtNatList (Spec.multiset lt c))
+    | _, _ => bad
+  | "riter" =>
+    match st with
+    | some lv =>
+      let m := match lv.model with | .ok x => fmtNatList x.cur.reverse ++ fmtSt x.cur | .error e => e.fmt
+      (st, m ++ "\t" ++ fmtNatList lv.spec.cur.reverse ++ fmtSt lv.spec.cur)
+    | none => bad
+  | _ =>
+    match st, parseOp l with
+    | some lv, some (op, hint) =>
+      let isSet := lv.kind == .ss
+      let (m', ms) : Except Err (St Nat) × String :=
+        match lv.model with
+        | .error e => (.error e, e.fmt)
+        | .ok x =>
+          match C09.step lv.kind lv.lt lv.cap x op with
+          | .ok (x', o) => (.ok x', fmtOut hint o ++ fmtSt x'.cur)
+          | .error e => (.error e, e.fmt)
+      let (s', o) := Spec.step isSet lv.lt lv.cap lv.spec op
+      (some { lv with model := m', spec := s' }, ms ++ "\t" ++ fmtOut hint o ++ fmtSt s'.cur)
+    | _, _ => bad
+
+end Tetl.C09.Driver
+
+def main : IO Unit := Tetl.Proto.runDriver (none : Tetl.C09.Driver.DState) Tetl.C09.Driver.step
